@@ -399,7 +399,8 @@ theorem phyRowAt_full (cfg : Cfg) (enc : UInt8 → UInt8) (txt : Nat → Bytes) 
   rw [phyRowAt_pos _ _ _ _ _ h, List.take_of_length_le hl]
 
 /-- the name field of a first-block line -/
-theorem phyName_write (st : PhySt) (nm b : Bytes) (hnm : phyNameOk nm) (hk : st.idx < st.nseq) (hl : st.names.length = st.nseq) :
+theorem phyName_write (st : PhySt) (nm b : Bytes) (hnm : phyNameOk nm) (hk : st.idx < st.nseq) (hl : st.names.length = st.nseq)
+    (hnw : st.nw = 10) :
     phyName st (padTrunc 10 nm ++ 32 :: b) = .inl (st.names.set st.idx (some (nm.take 10)), 32 :: b) := by
   have hlen : ¬ ((padTrunc 10 nm ++ 32 :: b).length < nameWidth) := by simp [padTrunc10_length, nameWidth]
   have htake : (padTrunc 10 nm ++ 32 :: b).take nameWidth = padTrunc 10 nm := List.take_left' (padTrunc10_length nm)
@@ -407,6 +408,8 @@ theorem phyName_write (st : PhySt) (nm b : Bytes) (hnm : phyNameOk nm) (hk : st.
   have h1 : ¬ (st.idx ≥ st.nseq) := by omega
   have h2 : ¬ (st.idx ≥ st.names.length) := by omega
   unfold phyName
+  rw [hnw]
+  simp only [nameWidth] at hlen htake hdrop
   simp only [hlen, if_false, htake, rectifyName_padTrunc nm hnm, hdrop, h1, h2]
 
 theorem rowLine_notBlank (nm b : Bytes) (hnm : phyNameOk nm) : isBlankLine (padTrunc 10 nm ++ 32 :: b) = false := by
@@ -439,6 +442,7 @@ theorem seqRowF_other (cfg : Cfg) (enc : UInt8 → UInt8) (txt : Nat → Bytes) 
 
 /-- before the name line of sequence `k` -/
 structure SeqRtPre (cfg : Cfg) (enc : UInt8 → UInt8) (txt : Nat → Bytes) (m : Msa) (k : Nat) (st : PhySt) : Prop where
+  nw : st.nw = 10
   nseq : st.nseq = m.nseq
   alenStated : st.alenStated = m.alen
   idx : st.idx = k
@@ -448,6 +452,7 @@ structure SeqRtPre (cfg : Cfg) (enc : UInt8 → UInt8) (txt : Nat → Bytes) (m 
 
 /-- inside sequence `k`, `pos` columns consumed -/
 structure SeqRt (cfg : Cfg) (enc : UInt8 → UInt8) (txt : Nat → Bytes) (m : Msa) (k pos : Nat) (st : PhySt) : Prop where
+  nw : st.nw = 10
   phase : st.phase = .rows
   nseq : st.nseq = m.nseq
   alenStated : st.alenStated = m.alen
@@ -471,7 +476,7 @@ theorem seqLine_first (abc : Option Abc) (cfg : Cfg) (enc : UInt8 → UInt8) (tx
   have hline : phyRowLine abc m k 0 = padTrunc 10 (m.names.getD k []) ++ 32 :: (txt k).take 60 := by
     rw [phyRowLine_zero, h.buf_eq k hk 0]; simp
   have hnl : st.names.length = st.nseq := by rw [hst.names, hst.nseq]; simp
-  have hname := phyName_write st (m.names.getD k []) ((txt k).take 60) (h.name_ok k hk) (by rw [hst.idx, hst.nseq]; exact hk) hnl
+  have hname := phyName_write st (m.names.getD k []) ((txt k).take 60) (h.name_ok k hk) (by rw [hst.idx, hst.nseq]; exact hk) hnl hst.nw
   have hnif : phyNameIf (st.alen == 0) st (phyRowLine abc m k 0)
       = .inl (st.names.set st.idx (some ((m.names.getD k []).take 10)), 32 :: (txt k).take 60) := by
     rw [hst.alen, hline]
@@ -493,7 +498,7 @@ theorem seqLine_first (abc : Option Abc) (cfg : Cfg) (enc : UInt8 → UInt8) (tx
     rw [hnif]
     simp only [hpc]
   · exact
-      { phase := rfl, nseq := hst.nseq, alenStated := hst.alenStated, idx := hst.idx,
+      { nw := hst.nw, phase := rfl, nseq := hst.nseq, alenStated := hst.alenStated, idx := hst.idx,
         alen := by simp
         names := by
           show st.names.set st.idx (some ((m.names.getD k []).take 10)) = _
@@ -566,7 +571,7 @@ theorem seqStep_block (abc : Option Abc) (cfg : Cfg) (enc : UInt8 → UInt8) (tx
     rw [hnif]
     simp only [hpc]
   · exact
-      { phase := rfl, nseq := hst.nseq, alenStated := hst.alenStated, idx := hst.idx,
+      { nw := hst.nw, phase := rfl, nseq := hst.nseq, alenStated := hst.alenStated, idx := hst.idx,
         alen := by simp
         names := hst.names
         rows := by
@@ -581,7 +586,7 @@ theorem seqStep_block (abc : Option Abc) (cfg : Cfg) (enc : UInt8 → UInt8) (tx
 theorem SeqRt.full (cfg : Cfg) (enc : UInt8 → UInt8) (txt : Nat → Bytes) (m : Msa) (k pos : Nat) (st : PhySt)
     (hl : (txt k).length = m.alen) (ha : 1 ≤ m.alen) (hpos : m.alen ≤ pos) (hst : SeqRt cfg enc txt m k pos st) :
     SeqRt cfg enc txt m k m.alen st :=
-  { phase := hst.phase, nseq := hst.nseq, alenStated := hst.alenStated, idx := hst.idx,
+  { nw := hst.nw, phase := hst.phase, nseq := hst.nseq, alenStated := hst.alenStated, idx := hst.idx,
     alen := by rw [hst.alen, List.take_of_length_le (by omega), List.take_of_length_le (by omega)]
     names := hst.names
     rows := by
@@ -662,7 +667,7 @@ theorem seqStep_next (abc : Option Abc) (cfg : Cfg) (enc : UInt8 → UInt8) (txt
     have h2 : st.idx + 1 < st.nseq := by rw [hst.idx, hst.nseq]; exact hk
     simp only [h1, Bool.false_eq_true, if_false, h2, if_true, hst.phase]
   · exact
-      { nseq := hst.nseq, alenStated := hst.alenStated
+      { nw := hst.nw, nseq := hst.nseq, alenStated := hst.alenStated
         idx := by show st.idx + 1 = k + 1; rw [hst.idx]
         alen := rfl
         names := hst.names
@@ -704,7 +709,7 @@ theorem seqSteps_seqs (abc : Option Abc) (cfg : Cfg) (enc : UInt8 → UInt8) (tx
     have hpre : SeqRtPre cfg enc txt m 0
         { phase := .hdr, nseq := m.nseq, alenStated := m.alen, names := List.replicate m.nseq none,
           rows := List.replicate m.nseq none, idx := 0, alen := 0 } :=
-      { nseq := rfl, alenStated := rfl, idx := rfl, alen := rfl
+      { nw := rfl, nseq := rfl, alenStated := rfl, idx := rfl, alen := rfl
         names := rangeMap_const _ _ _ (fun j => by simp [seqNameF])
         rows := rangeMap_const _ _ _ (fun j => by simp [seqRowF, phyRowAt]) }
     have := seqSteps_seq abc cfg enc txt m h 0 hk
@@ -864,6 +869,7 @@ def ilvNameC (m : Msa) (pos idx : Nat) : Nat := if pos = 0 then idx else m.nseq
 
 /-- in front of row `idx` of the block starting at `pos` -/
 structure IlvPre (cfg : Cfg) (enc : UInt8 → UInt8) (txt : Nat → Bytes) (m : Msa) (pos i : Nat) (st : PhySt) : Prop where
+  nw : st.nw = 10
   nseq : st.nseq = m.nseq
   alenStated : st.alenStated = m.alen
   idx : st.idx = i
@@ -922,7 +928,7 @@ theorem ilvLine_row (abc : Option Abc) (cfg : Cfg) (enc : UInt8 → UInt8) (txt 
         rw [phyRowLine_zero, h.buf_eq idx hidx 0]
       have hnl : st.names.length = st.nseq := by rw [hst.names, hst.nseq]; simp
       have hname := phyName_write st (m.names.getD idx []) (((txt idx).drop 0).take 60) (h.name_ok idx hidx)
-        (by rw [hst.idx, hst.nseq]; exact hidx) hnl
+        (by rw [hst.idx, hst.nseq]; exact hidx) hnl hst.nw
       refine ⟨32 :: ((txt idx).drop 0).take 60, ?_, ?_⟩
       · rw [hst.nb, hline]
         simp only [decide_true, phyNameIf, if_true, hname, hst.names, hst.idx]
@@ -973,7 +979,7 @@ theorem ilvLine_row (abc : Option Abc) (cfg : Cfg) (enc : UInt8 → UInt8) (txt 
     exact
       { phase := rfl
         pre :=
-          { nseq := hst.nseq, alenStated := hst.alenStated
+          { nw := hst.nw, nseq := hst.nseq, alenStated := hst.alenStated
             idx := by show st.idx + 1 = idx + 1; rw [hst.idx]
             alen := hst.alen, nb := hst.nb
             blk := fun _ => hba
@@ -1066,7 +1072,7 @@ theorem ilvStep_gap (abc : Option Abc) (cfg : Cfg) (enc : UInt8 → UInt8) (txt 
     have hlt : st.alen + st.blockAlen < st.alenStated := by rw [hal, hst.pre.alenStated]; exact hnext
     simp only [hlt, if_true]
   · exact
-      { nseq := hst.pre.nseq, alenStated := hst.pre.alenStated, idx := rfl
+      { nw := hst.pre.nw, nseq := hst.pre.nseq, alenStated := hst.pre.alenStated, idx := rfl
         alen := hal
         nb := by
           show (st.nblocks + 1 == 0) = decide (pos + 60 = 0)
@@ -1167,7 +1173,7 @@ theorem phylipRead_writeLines (abc : Option Abc) (cfg : Cfg) (enc : UInt8 → UI
   have hpre : IlvPre cfg enc txt m 0 0
       { phase := .hdr, nseq := m.nseq, alenStated := m.alen, names := List.replicate m.nseq none,
         rows := List.replicate m.nseq none, idx := 0, alen := 0, nblocks := 0 } :=
-    { nseq := rfl, alenStated := rfl, idx := rfl, alen := rfl, nb := rfl
+    { nw := rfl, nseq := rfl, alenStated := rfl, idx := rfl, alen := rfl, nb := rfl
       blk := fun h0 => absurd rfl h0
       names := rangeMap_const _ _ _ (fun j => by simp [seqNameF, ilvNameC])
       rows := rangeMap_const _ _ _ (fun j => by simp [ilvRowF, phyRowAt]) }
